@@ -98,6 +98,11 @@ func fieldVar(info *types.Info, e ast.Expr) *types.Var {
 	}
 	if s, ok := info.Selections[sel]; ok && s.Kind() == types.FieldVal {
 		v, _ := s.Obj().(*types.Var)
+		if v != nil {
+			// a field selected through an instantiated generic type (s.pool inside a method of
+			// ObjectPool[T]) is a distinct object from the declared field: always use the declaration
+			return v.Origin()
+		}
 		return v
 	}
 	return nil
@@ -136,7 +141,7 @@ func fieldOwner(v *types.Var, pkgs []*packages.Package) string {
 				continue
 			}
 			for i := 0; i < st.NumFields(); i++ {
-				if st.Field(i) == v {
+				if st.Field(i).Origin() == v {
 					return p.PkgPath + "." + n + "." + v.Name()
 				}
 			}
